@@ -228,10 +228,20 @@ def finish(prop, modname, mod, tier, seed, subs, results, t0, write=True):
     known_file = load_known()
     listed = {f['id']: f for f in known_file.get('findings', [])
               if f['property'] == prop}
-    meta = getattr(mod, 'META', {})
+    meta = dict(getattr(mod, 'META', {}))
+    try:
+        import registry
+        for k_, v_ in registry.EVIDENCE_META.get(prop, {}).items():
+            meta.setdefault(k_, v_)
+        meta.setdefault('explanation',
+                        registry.CHECKS.get(prop, {}).get('text', ''))
+        for k_, v_ in registry.EVIDENCE_COMMON.items():
+            meta[k_] = list(meta.get(k_, [])) + list(v_)
+    except Exception:       # noqa
+        pass
     errors, violations, known_hits = [], [], {}
     tot = dict(completed=0, ignored=0, unknown=0, timeouts=0, decisions=0,
-               validated=0, queries=0, solver_s=0.0)
+               validated=0, queries=0, solver_s=0.0, z3_checks=0)
     reached = {}
     samples = []
     incomplete = []
@@ -253,7 +263,7 @@ def finish(prop, modname, mod, tier, seed, subs, results, t0, write=True):
         if r.get('error'):
             errors.append('%s: %s' % (r['name'], r['error']))
         for k in ('completed', 'ignored', 'unknown', 'timeouts', 'decisions',
-                  'validated', 'queries'):
+                  'validated', 'queries', 'z3_checks'):
             tot[k] += r.get(k, 0) or 0
         tot['solver_s'] += r.get('solver_s', 0.0) or 0.0
         for k, v in (r.get('reached') or {}).items():
@@ -383,7 +393,8 @@ def finish(prop, modname, mod, tier, seed, subs, results, t0, write=True):
             'paths_ignored_by_assume': tot['ignored'],
             'unknown_paths': tot['unknown'], 'timeout_paths': tot['timeouts'],
             'solver_branch_decisions': tot['decisions'],
-            'smt_queries': tot['queries'] + tot['decisions'],
+            'smt_queries': tot['queries'] + (tot['z3_checks'] or
+                                             tot['decisions']),
             'solver_s': round(tot['solver_s'], 2),
             'reachability': reached,
             'realizations_unexpected': unexpected_real,
